@@ -20,6 +20,7 @@ import (
 	"context"
 	"errors"
 	"fmt"
+	"io"
 	stdnet "net"
 	"os"
 	"os/exec"
@@ -697,6 +698,9 @@ func (p *plugin) StateChange(ctx context.Context, evt *StateChangeEvent) (err er
 func isFatalError(err error) bool {
 	switch {
 	case errors.Is(err, ttrpc.ErrClosed):
+		return true
+	case errors.Is(err, io.ErrUnexpectedEOF):
+		// the connection ended in the middle of a multiplexer frame or ttrpc message
 		return true
 	case errors.Is(err, ttrpc.ErrServerClosed):
 		return true
